@@ -30,6 +30,9 @@ type qStore struct {
 	// honourCtx: the store behaves like a remote client: OpenFile and Read fail with the error of the
 	// context OpenFile was given once that context is done.
 	honourCtx bool
+	// corrupt, when set, is asked after every successful Read (start position, bytes read); true flips a bit
+	// of what was read: the store returns damaged bytes without an error
+	corrupt func(h *qHandle, off int64, n int) bool
 }
 
 type qHandle struct {
@@ -113,8 +116,12 @@ func (h *qHandle) Read(p []byte) (int, error) {
 	if h.s.honourCtx && h.ctx.Err() != nil {
 		return 0, fmt.Errorf("store read abandoned: %w", h.ctx.Err())
 	}
+	off := h.pos.Load()
 	n2, err := h.inner.Read(p)
 	h.pos.Add(int64(n2))
+	if f := h.s.corrupt; f != nil && n2 > 0 && f(h, off, n2) {
+		p[n2/2] ^= 0x10
+	}
 	return n2, err
 }
 
